@@ -252,7 +252,9 @@ class AQTSampler(cirq.Sampler):
             RuntimeError: If the circuit is empty.
         """
 
-        seq_list: list[tuple[str, float, list[int]] | tuple[str, float, float, list[int]]] = []
+        seq_list: list[
+            tuple[str, float, list[int]] | tuple[str, float, float, list[int]] | tuple[str]
+        ] = []
         circuit = cirq.resolve_parameters(circuit, param_resolver)
         for op in circuit.all_operations():
             line_qubit = cast(tuple[cirq.LineQubit], op.qubits)
@@ -265,6 +267,9 @@ class AQTSampler(cirq.Sampler):
                 seq_list.append(
                     (op_str, float(gate.exponent), float(gate.phase_exponent), qubit_idx)
                 )
+            elif op_str == OperationString.MEASURE.value:
+                # The AQT API measures all qubits; the entry only marks where the measurement is.
+                seq_list.append((op_str,))
             else:
                 gate = cast(cirq.EigenGate, op.gate)
                 seq_list.append((op_str, float(gate.exponent), qubit_idx))
